@@ -193,6 +193,25 @@ def run(ctx, thorough=False):
                   'from == to means the joint is unconstrained, but the membership test answers %s for every angle in [-13, 13] (tolerance %s)' % (sorted(map(str, res)), sorted(map(str, tol))),
                   found=sorted(map(str, res)), expected='[True]', detail='tolerance %s -> accepted' % sorted(map(str, tol)))
 
+    # ---- R07.2b only from == to is unconstrained: a narrow window (limits a hair apart) still rejects the opposite angle
+    ctx.rule('R07.2b', 'limits that differ, however little, bound the joint: a window of width 1e-9 .. 1e-2 rad rejects the angle opposite to it')
+    for x in (0.0, 0.5235987755982988, -2.0):
+        for dlt in (1e-9, 1e-6, 1e-4, 1e-3, 1e-2):
+            f, t_ = x, x + dlt
+            try:
+                outs = interp_centers(prog, cc, [(f, f)] * 6, [(t_, t_)] * 6)
+                variants = {(o.ret[0][0], o.ret[1][0]) for o in outs}
+                res = set()
+                for c, tl in variants:
+                    res |= interp_inside(prog, ib, Iv(x + 2.0, x + 2.0), c, tl)
+            except absint.Undecided:
+                res = {None}
+            except absint.Unsupported as e:
+                raise MachineryError('centre helper on a narrow window: %s' % e)
+            ctx.check(res == {False}, 'R07.2b', 'window(%g,+%g)' % (x, dlt), cc.where(0), cc.path,
+                      'limits %r .. %r differ, so the joint is bounded to that window, but an angle 2 rad away is answered %s (only from == to means unconstrained)' % (
+                          f, t_, sorted(map(str, res))), found=sorted(map(str, res)), expected='[False]', detail='rejected')
+
     # ---- R07.2c boundary inclusion
     rets = [(t, d) for t, d, rb in ib.return_values()]
     les = [strip(t) for t, d in rets if isinstance(strip(t), tuple) and strip(t)[0] == 'bin']
